@@ -111,6 +111,20 @@ RefinesPickValidString == [][AbstractStep \/ Outcome' = Outcome]_vars
 EveryValidStringReachable ==
   (pc = "drawing" /\ cand = <<>> /\ trial = 1) => \A s \in ValidStrings(r) : \E t \in Tuples : StringOf(t) = s
 
+\* C06 with retries, as a counting statement over ALL index paths of up to mt attempts: every valid string has the same
+\* number of accepting paths, and that common mass never exceeds 1 / count (the reported entropy is log2 count), also when
+\* the attempt budget can run out (mass is then lost to "exhausted", never shifted onto a password)
+RECURSIVE GeomSum(_,_,_,_)
+\* sum over t = 1..T of  R^(t-1) * D^(T-t)   (paths accepting a fixed valid string at attempt t, over the common denominator D^T)
+GeomSum(R, Dn, T, t) == IF t > T THEN 0 ELSE IPow(R, t-1) * IPow(Dn, T - t) + GeomSum(R, Dn, T, t+1)
+RetryNeverFavoursNorOverstates ==
+  (pc = "built" /\ A > 0 /\ r.len >= 1 /\ CountValidInt(r) > 0 /\ IPow(A, r.len * mt) < 1000000) =>
+     LET Dn == IPow(A, r.len)
+         cnt == CountValidInt(r)
+         perString == GeomSum(Dn - cnt, Dn, mt, 1)            \* identical for every valid string: retrying favours nothing
+     IN  /\ perString * cnt <= IPow(Dn, mt)                    \* P(s) = perString / D^T <= 1 / cnt = 2^-Entropy
+         /\ perString * cnt + IPow(Dn - cnt, mt) = IPow(Dn, mt) \* successes + "all attempts failed" = everything
+
 \* C02 as a counting statement over the complete cell of index tuples of ONE attempt: every valid
 \* string is produced by exactly one tuple, every tuple produces a string over the alphabet.
 OneTuplePerString ==
